@@ -103,4 +103,47 @@ crate::harnesses! {
         vcheck!(r.is_ok(), "emitted bytes re-read to the default digits rounded to max digits, with padding/trim/notation as configured");
         cover(kind == 0 && max == 2);
     }
+
+    /// rounding core through the scientific writer: 2-4 digit mantissas cut to 1..3 digits, both round modes (ties, carries).
+    /// @prop C14 C08
+    /// @feat default radix_format
+    /// @bound mantissa in 11..=9999 (no trailing zero), sci_exp = 0, max_significant_digits 1..=3, no min, no trim
+    /// @fn lexical-write-float::shared::truncate_and_round_decimal
+    /// @fn lexical-write-float::shared::round_up
+    /// @fn lexical-write-float::algorithm::write_float_scientific
+    /// @timeout 1800
+    #[cfg_attr(kani, kani::unwind(10))]
+    fn emit_rounding_ties_small() {
+        let mant: u64 = any();
+        let max: usize = any();
+        let truncate: bool = any();
+        assume(mant >= 11 && mant <= 9999 && mant % 10 != 0 && max >= 1 && max <= 3);
+        let r = cmp_emit(0, mant, 0, Some(max), None, truncate, false);
+        vcheck!(r.is_ok(), "digits == default digits rounded half-even (or truncated) to max_significant_digits; carry moves the exponent");
+        cover(mant == 125 && max == 2);
+    }
+
+    /// positional writers (positive and negative exponent) with rounding, padding and trimming on 1-3 digit mantissas.
+    /// @prop C14 C08 C09
+    /// @feat default radix_format
+    /// @bound mantissa < 1000 (no trailing zero), -3 <= sci_exp <= 3, max/min significant digits 0..=4, both round modes, trim on/off
+    /// @fn lexical-write-float::algorithm::write_float_positive_exponent
+    /// @fn lexical-write-float::algorithm::write_float_negative_exponent
+    /// @fn lexical-write-float::shared::min_exact_digits
+    /// @timeout 2400
+    #[cfg_attr(kani, kani::unwind(10))]
+    fn emit_positional_small() {
+        let mant: u64 = any();
+        let sci: i32 = any();
+        let max: usize = any();
+        let min: usize = any();
+        let truncate: bool = any();
+        let trim: bool = any();
+        assume(mant >= 1 && mant < 1000 && mant % 10 != 0 && sci >= -3 && sci <= 3 && max <= 4 && min <= 4);
+        assume(max == 0 || min == 0 || min <= max);
+        let kind = if sci >= 0 { 1 } else { 2 };
+        let r = cmp_emit(kind, mant, sci, if max == 0 { None } else { Some(max) }, if min == 0 { None } else { Some(min) }, truncate, trim);
+        vcheck!(r.is_ok(), "positional output re-reads to the rounded digits, with padding / trimming as configured");
+        cover(trim && sci >= 0);
+    }
 }
